@@ -407,6 +407,11 @@ def _exec(ctx, case):
     zero_seg = bool(((refA.seglen == 0) & (refA.pid >= 0)).any()
                     or ((refB.seglen == 0) & (refB.pid >= 0)).any())  # (also after the motion:
     # a translation far beyond the neuron's extent merges neighbouring float32 positions)
+    # (the library evaluates node positions in float32 whatever width the columns have: a twin
+    # held in float64 can keep neighbours apart that float32 merges)
+    XB32 = refB.X.astype(np.float32)
+    zero_seg = zero_seg or bool(any(refB.pid[i] >= 0 and np.array_equal(XB32[i], XB32[refB.pid[i]])
+                                    for i in range(refB.n)))
     want_volume = case["volume"] and not zero_seg and n <= 80  # (a zero-length frustum has no axis)
     if want_volume and float(spec["r"].min()) * min(s, 1.0) < 1e-2:
         # the library's closed forms carry an absolute eps = 1e-6 (documented under C13): with
